@@ -3,6 +3,7 @@ import random
 
 from common import *  # noqa
 import framework as fw
+import frames
 
 MODULE = ["LWV.Props.C03", "LWV.Props.C03Full"]
 
@@ -74,7 +75,7 @@ def gen_line(rnd, kind, ops=True, full=False):
                     elif c < 0.85:
                         extra.append("r:%d" % rnd.choice([0, 3, 1, 221]))
                     else:
-                        extra.append("a:%d:%s" % (rnd.choice([0, 3, 7]), bytes(rnd.randrange(1, 256) for _ in range(rnd.choice([1, 2, 5]))).hex()))
+                        extra.append("a:%d:%s" % (rnd.choice([0, 3, 7]), frames.tag_body(rnd, rnd.choice([1, 2, 5])).hex()))
                 o += extra
         if kind in ("action", "action_noack"):
             total = 0
